@@ -15,6 +15,7 @@ nodes added at their runtime path with their whole branch, file-only nodes (also
 The engine is `appendKids_spec` / `appendOne_spec` (EmdProofs/AppendSpec.lean, mutual induction on the runtime tree).
 -/
 import EmdProofs.AppendSpec
+import EmdProofs.Zipper
 import EmdProps.C08
 
 set_option linter.unusedSimpArgs false
@@ -415,5 +416,352 @@ example : (match appendInto DT (fileOf {} "u" exF) exR [] true .yes none with
     | .ok f => (f.at ["r", "a"]).bind Obj.pyClass == some "Node" && (f.at ["r", "a", "deepF"]).isSome &&
                (f.at ["r", "a", "new", "newdeep"]).isSome && (f.at ["r", "onlyrt"]).isSome && (f.at ["r", "onlyfile"]).isSome
     | .error _ => false) = true := by decide
+
+/-! ## Targeted appends: exactly the selection, exactly there -/
+
+/-- the file's root after `_append_root_metadata`: same tree, root body with the merged bundle -/
+def withBody (F : Tree) (body' : List (String × Obj)) : Tree := .mk { F.info with body := body' } F.kids
+
+theorem withBody_at (F : Tree) (body' : List (String × Obj)) (n : String) (p : List String) :
+    (withBody F body').at (n :: p) = F.at (n :: p) := by
+  cases F; rfl
+
+/-- the root-metadata step on an encoded tree (factored out of `C09_union`) -/
+theorem rootMd_encode (over : Bool) (F : Tree) (ri : NodeInfo) (body' : List (String × Obj))
+    (hFw : F.wf CT DT = true) (hmdname : "metadatabundle" ∉ names F.kids)
+    (hmd : mdBody over F.info.body (mdEntries ri) = .ok body') :
+    (withBody F body').wf CT DT = true ∧ appendRootMetadata (encode F) ri over = .ok (encode (withBody F body')) := by
+  cases F with
+  | mk i fk =>
+  simp only [Tree.info_mk, Tree.kids_mk] at hmd hmdname
+  have hFw' := hFw
+  simp only [Tree.wf, Bool.and_eq_true] at hFw
+  obtain ⟨hi, hk⟩ := hFw
+  have hib := hi
+  simp only [infoWF, Bool.and_eq_true] at hib
+  obtain ⟨hbw, hbkeys⟩ := mdBody_wf over i.body body' _ hib.2 hmd
+  have hi2 : infoWF CT DT { i with body := body' } = true := by
+    simp only [infoWF, Bool.and_eq_true]
+    exact ⟨hib.1, hbw⟩
+  have hk2 : kidsWF CT DT (akeys body') fk = true := by
+    apply kidsWF_retake' fk _ _ hk
+    intro k hkm hmem
+    cases hbkeys _ hmem with
+    | inl h => exact kidsWF_names_not_taken fk _ hk k.name (List.mem_map_of_mem hkm) h
+    | inr h => exact hmdname (h ▸ List.mem_map_of_mem hkm)
+  refine ⟨by simp only [withBody, Tree.info_mk, Tree.kids_mk, Tree.wf, Bool.and_eq_true]; exact ⟨hi2, hk2⟩, ?_⟩
+  have hmdk : "metadatabundle" ∉ akeys (encodeKids fk) := by rw [akeys_encodeKids]; exact hmdname
+  simp only [encode, withBody, Tree.info_mk, Tree.kids_mk]
+  rw [appendRootMetadata_body over _ _ _ ri hmdk, hmd]
+  rfl
+
+theorem encode_addKid (P D : Tree) : encode (P.addKid D) = (encode P).setKids ((encode P).kids ++ [(D.name, encode D)]) := by
+  cases P with
+  | mk i kids => simp only [Tree.addKid, Tree.info_mk, Tree.kids_mk, encode, Obj.setKids, Obj.kids, encodeKids_append, List.append_assoc]
+
+theorem alookup_encode_none (P : Tree) (m : String) (h1 : m ∉ akeys P.info.body) (h2 : m ∉ names P.kids) :
+    alookup m (encode P).kids = none := by
+  cases P with
+  | mk i kids =>
+    simp only [Tree.info_mk, Tree.kids_mk] at h1 h2
+    simp only [encode, Obj.kids]
+    rw [alookup_body_kids m i.body kids h1, (findKid_none_iff m kids).mpr h2]; rfl
+
+/-- writing a node with its branch (`tree=True`) into the encoded group of a node that has nothing of that name -/
+theorem writeBranch_into (P D : Tree) (hD : D.wf CT DT = true) (h1 : D.name ∉ akeys P.info.body) (h2 : D.name ∉ names P.kids) :
+    (do let c ← writeNodeFull D; createIn (encode P) D.name c) = .ok (encode (P.addKid D)) := by
+  have hv : validName D.name = true := infoWF_validName (Tree.wf_info hD)
+  have hnone := alookup_encode_none P D.name h1 h2
+  rw [writeNodeFull_ok (ct := CT) (dt := DT) D hD]
+  simp only [bind, Except.bind]
+  rw [encode_addKid]
+  cases P with
+  | mk i kids =>
+    simp only [encode, Obj.kids] at hnone ⊢
+    rw [createIn_fresh _ _ _ _ hv hnone]
+    rfl
+
+/-- writing a node alone (`tree=False`) -/
+theorem writeSingle_into (P : Tree) (di : NodeInfo) (hv : validName di.name = true) (h1 : di.name ∉ akeys P.info.body)
+    (h2 : di.name ∉ names P.kids) : writeSingleNode (encode P) di = .ok (encode (P.addKid (.mk di []))) := by
+  have hnone := alookup_encode_none P di.name h1 h2
+  rw [encode_addKid]
+  have henc : encode (.mk di []) = nodeGroup di := by simp [encode, encodeKids, nodeGroup]
+  simp only [writeSingleNode, Tree.name_mk, henc]
+  cases P with
+  | mk i kids =>
+    simp only [encode, Obj.kids] at hnone ⊢
+    rw [createIn_fresh _ _ _ _ hv hnone]
+    rfl
+
+/-- C09, targeted append of a NEW BRANCH (`save(path, node, mode='a'/'ao', tree=True)` for a runtime node whose parent
+    path `q` is in the file and which itself is not): the file's tree becomes the old tree (root metadata merged) with
+    exactly that node and its whole branch added as a new last child of the node at `q` — and nothing else: every path
+    that does not pass through `q` keeps its content (`info_replaceAt_frame`), the node at `q` keeps its own content and
+    its old children. -/
+theorem C09_target_new_branch (over : Bool) (f : Obj) (F Rt P D : Tree) (body' : List (String × Obj))
+    (q : List String) (m : String)
+    (hF : F.rootedWF CT DT = true) (hR : Rt.rootedWF CT DT = true) (hname : Rt.name = F.name)
+    (hf : alookup F.name f.kids = some (encode F)) (hroot : (rootGroups f).contains F.name = true)
+    (hmdname : "metadatabundle" ∉ names F.kids)
+    (hmd : mdBody over F.info.body (mdEntries Rt.info) = .ok body')
+    (hP : (withBody F body').at q = some P) (hD : Rt.at (q ++ [m]) = some D)
+    (hnew : m ∉ names P.kids) (hbody : m ∉ akeys P.info.body) :
+    appendInto DT f Rt (q ++ [m]) over .yes none
+      = .ok (f.setKids (areplace F.name (encode ((withBody F body').replaceAt q (P.addKid D))) f.kids)) ∧
+    ((withBody F body').replaceAt q (P.addKid D)).wf CT DT = true := by
+  simp only [Tree.rootedWF, Bool.and_eq_true, beq_iff_eq] at hF hR
+  obtain ⟨hF1w, hrm⟩ := rootMd_encode over F Rt.info body' hF.1.1 hmdname hmd
+  obtain ⟨hDw, hDd⟩ := wf_at (q ++ [m]) Rt D hR.1.1 hD
+  have hDn : D.name = m := by
+    cases hq : q ++ [m] with
+    | nil => simp at hq
+    | cons a b =>
+      rw [hq] at hD
+      have := at_name b Rt D a hD
+      rw [this]
+      simp only [← hq]; simp
+  have hval := validate_beyond (ct := CT) (dt := DT) q (withBody F body') P m hF1w hP (alookup_encode_none P m hbody hnew)
+  have hwrite := writeBranch_into P D hDw (hDn ▸ hbody) (hDn ▸ hnew)
+  have hzip := atPath_encode (ct := CT) (dt := DT)
+    (fun g => do let c ← writeNodeFull D; createIn g D.name c) q (withBody F body') P (P.addKid D) hF1w hP hwrite rfl
+  have hne : (q ++ [m]).isEmpty = false := by cases q <;> rfl
+  simp only [bind, Except.bind] at hzip
+  refine ⟨?_, ?_⟩
+  · simp only [appendInto, appendCore, hname, hroot, hD, hf, hrm, hval, hne, bind, Except.bind, pure, Except.pure,
+      Bool.not_true, Bool.false_and, Bool.false_eq_true, if_false, hzip]
+  · have hPw := (wf_at q (withBody F body') P hF1w hP)
+    apply replaceAt_wf q (withBody F body') P (P.addKid D) hF1w hP _ rfl
+    · intro hq; exact hPw.2 hq
+    · -- the parent with the new child is well formed
+      have := hPw.1
+      cases P with
+      | mk pi pk =>
+        simp only [Tree.info_mk, Tree.kids_mk] at hnew hbody
+        simp only [Tree.addKid, Tree.info_mk, Tree.kids_mk, Tree.wf, Bool.and_eq_true] at this ⊢
+        refine ⟨this.1, kidsWF_append D pk _ this.2 (hDn ▸ hbody) (hDn ▸ hnew) hDw (hDd (by cases q <;> simp))⟩
+
+/-- C09, targeted append of a SINGLE NEW NODE (`tree=False`): only the node itself is added there, without its branch -/
+theorem C09_target_new_single (over : Bool) (f : Obj) (F Rt P D : Tree) (body' : List (String × Obj))
+    (q : List String) (m : String)
+    (hF : F.rootedWF CT DT = true) (hR : Rt.rootedWF CT DT = true) (hname : Rt.name = F.name)
+    (hf : alookup F.name f.kids = some (encode F)) (hroot : (rootGroups f).contains F.name = true)
+    (hmdname : "metadatabundle" ∉ names F.kids)
+    (hmd : mdBody over F.info.body (mdEntries Rt.info) = .ok body')
+    (hP : (withBody F body').at q = some P) (hD : Rt.at (q ++ [m]) = some D)
+    (hnew : m ∉ names P.kids) (hbody : m ∉ akeys P.info.body) :
+    appendInto DT f Rt (q ++ [m]) over .no none
+      = .ok (f.setKids (areplace F.name (encode ((withBody F body').replaceAt q (P.addKid (.mk D.info [])))) f.kids)) := by
+  simp only [Tree.rootedWF, Bool.and_eq_true, beq_iff_eq] at hF hR
+  obtain ⟨hF1w, hrm⟩ := rootMd_encode over F Rt.info body' hF.1.1 hmdname hmd
+  obtain ⟨hDw, hDd⟩ := wf_at (q ++ [m]) Rt D hR.1.1 hD
+  have hDn : D.name = m := by
+    cases hq : q ++ [m] with
+    | nil => simp at hq
+    | cons a b =>
+      rw [hq] at hD
+      have := at_name b Rt D a hD
+      rw [this]
+      simp only [← hq]; simp
+  have hval := validate_beyond (ct := CT) (dt := DT) q (withBody F body') P m hF1w hP (alookup_encode_none P m hbody hnew)
+  have hv : validName D.info.name = true := infoWF_validName (Tree.wf_info hDw)
+  have hwrite := writeSingle_into P D.info hv (by rw [show D.info.name = D.name from rfl, hDn]; exact hbody)
+    (by rw [show D.info.name = D.name from rfl, hDn]; exact hnew)
+  have hzip := atPath_encode (ct := CT) (dt := DT)
+    (fun g => writeSingleNode g D.info) q (withBody F body') P (P.addKid (.mk D.info [])) hF1w hP hwrite rfl
+  have hne : (q ++ [m]).isEmpty = false := by cases q <;> rfl
+  simp only [appendInto, appendCore, hname, hroot, hD, hf, hrm, hval, hne, bind, Except.bind, pure, Except.pure,
+    Bool.not_true, Bool.false_and, Bool.false_eq_true, if_false, hzip]
+
+/-- C09, targeted append BELOW an existing node (`save(path, node, mode, tree=None)` for a runtime node present in the
+    file at the same path): the children of that node — and only they — are merged by the name-based union rule; the
+    node itself, everything above it and everything beside it keep their content (root metadata merged as always). -/
+theorem C09_target_below (over : Bool) (f : Obj) (F Rt S D : Tree) (body' : List (String × Obj))
+    (n0 : String) (p0 : List String)
+    (hF : F.rootedWF CT DT = true) (hR : Rt.rootedWF CT DT = true) (hname : Rt.name = F.name)
+    (hf : alookup F.name f.kids = some (encode F)) (hroot : (rootGroups f).contains F.name = true)
+    (hmdname : "metadatabundle" ∉ names F.kids)
+    (hmd : mdBody over F.info.body (mdEntries Rt.info) = .ok body')
+    (hS : F.at (n0 :: p0) = some S) (hD : Rt.at (n0 :: p0) = some D)
+    (hcompat : compatKids over S.info S.kids (akeys S.info.body ++ names S.kids ++ names D.kids) D.kids = true) :
+    ∃ S', S'.wf CT DT = true ∧ S'.info = S.info ∧
+      appendInto DT f Rt (n0 :: p0) over .below none
+        = .ok (f.setKids (areplace F.name (encode ((withBody F body').replaceAt (n0 :: p0) S')) f.kids)) ∧
+      (∀ n r, cK S'.kids n r = combine over (cK S.kids n r) (cK D.kids n r)) ∧
+      ((withBody F body').replaceAt (n0 :: p0) S').wf CT DT = true := by
+  simp only [Tree.rootedWF, Bool.and_eq_true, beq_iff_eq] at hF hR
+  obtain ⟨hF1w, hrm⟩ := rootMd_encode over F Rt.info body' hF.1.1 hmdname hmd
+  have hS1 : (withBody F body').at (n0 :: p0) = some S := by rw [withBody_at]; exact hS
+  obtain ⟨hSw, hSd⟩ := wf_at (n0 :: p0) (withBody F body') S hF1w hS1
+  obtain ⟨hDw, _⟩ := wf_at (n0 :: p0) Rt D hR.1.1 hD
+  cases S with
+  | mk si sk =>
+  simp only [Tree.info_mk, Tree.kids_mk] at hcompat
+  obtain ⟨sk', hwf', heq', _, _, hspec'⟩ :=
+    appendKids_spec (ct := CT) (dt := DT) over D.kids si sk (taggedKeys (encode (.mk si sk)))
+      (akeys si.body ++ names sk ++ names D.kids) (akeys D.info.body) hSw (Tree.wf_kids hDw) hcompat
+      (fun m hm => by
+        simp only [List.mem_append]
+        cases hm with
+        | inl h => exact Or.inl (Or.inl h)
+        | inr h => exact Or.inl (Or.inr h))
+      (fun m hm => by simp only [List.mem_append]; exact Or.inr hm)
+      (fun d' hd' => by
+        simp only [encode]
+        exact taggedKeys_contains _ _ _ _ (compatKids_not_body over si sk _ D.kids hcompat d' hd'))
+  have hval := validate_inside (ct := CT) (dt := DT) (n0 :: p0) (withBody F body') (.mk si sk) hF1w hS1
+  have hzip := atPath_encode (ct := CT) (dt := DT) (fun g => appendBranch DT over g D) (n0 :: p0) (withBody F body')
+    (.mk si sk) (.mk si sk') hF1w hS1 (by simp only [appendBranch, appendNode]; exact heq') rfl
+  refine ⟨.mk si sk', hwf', rfl, ?_, hspec', ?_⟩
+  · simp only [appendInto, appendCore, hname, hroot, hD, hf, hrm, hval, List.isEmpty_cons, bind, Except.bind, pure,
+      Except.pure, Bool.not_true, Bool.false_and, Bool.false_eq_true, if_false, hzip]
+  · exact replaceAt_wf (n0 :: p0) (withBody F body') (.mk si sk) (.mk si sk') hF1w hS1 hwf' rfl (fun h => hSd h)
+
+/-- what "exactly there, and nothing else" means for all three targeted theorems: after replacing the subtree at `p`,
+    the new subtree is what is read at `p` (and below), and the content of every node whose path does not pass through
+    `p` is what it was -/
+theorem C09_target_frame (F S S' : Tree) (p : List String) (hS : F.at p = some S) (hn : S'.name = S.name) :
+    (∀ r, (F.replaceAt p S').at (p ++ r) = S'.at r) ∧
+    (∀ q, ¬ p <+: q → ((F.replaceAt p S').at q).map Tree.info = (F.at q).map Tree.info) :=
+  ⟨fun r => at_replaceAt_below p r F S S' hS hn, fun q hq => info_replaceAt_frame p q F S S' hS hn hq⟩
+
+/-- C09, FOREIGN NODE under an emdpath (`save(path, node_of_another_tree, mode, tree=True, emdpath='R/a/b')`, the
+    other tree's root name not being in the file): the node with its whole branch becomes a new last child of the node
+    the emdpath names; the foreign root's metadata are not involved -/
+theorem C09_foreign_branch (over : Bool) (f : Obj) (F X P D : Tree) (ep : String) (q : List String)
+    (t0 : String) (ts : List String)
+    (hF : F.wf CT DT = true) (hX : X.wf CT DT = true)
+    (hXnot : (rootGroups f).contains X.name = false)
+    (hparse : parseEmdpathWrite ep = some (F.name, q))
+    (hf : alookup F.name f.kids = some (encode F))
+    (hP : F.at q = some P) (hD : X.at (t0 :: ts) = some D)
+    (hnew : D.name ∉ names P.kids) (hbody : D.name ∉ akeys P.info.body) :
+    appendInto DT f X (t0 :: ts) over .yes (some ep)
+      = .ok (f.setKids (areplace F.name (encode (F.replaceAt q (P.addKid D))) f.kids)) := by
+  obtain ⟨hDw, _⟩ := wf_at (t0 :: ts) X D hX hD
+  have hval := validate_inside (ct := CT) (dt := DT) q F P hF hP
+  have hwrite := writeBranch_into P D hDw hbody hnew
+  have hzip := atPath_encode (ct := CT) (dt := DT)
+    (fun g => do let c ← writeNodeFull D; createIn g D.name c) q F P (P.addKid D) hF hP hwrite rfl
+  simp only [bind, Except.bind] at hzip
+  simp only [appendInto, appendCore, hXnot, hD, hparse, hf, hval, List.isEmpty_cons, Option.isNone_some, bind, Except.bind,
+    pure, Except.pure, Bool.not_false, Bool.and_false, Bool.false_and, Bool.false_eq_true, if_false, hzip]
+
+/-- …and the same node alone (`tree=False`) -/
+theorem C09_foreign_single (over : Bool) (f : Obj) (F X P D : Tree) (ep : String) (q : List String)
+    (t0 : String) (ts : List String)
+    (hF : F.wf CT DT = true) (hX : X.wf CT DT = true)
+    (hXnot : (rootGroups f).contains X.name = false)
+    (hparse : parseEmdpathWrite ep = some (F.name, q))
+    (hf : alookup F.name f.kids = some (encode F))
+    (hP : F.at q = some P) (hD : X.at (t0 :: ts) = some D)
+    (hnew : D.name ∉ names P.kids) (hbody : D.name ∉ akeys P.info.body) :
+    appendInto DT f X (t0 :: ts) over .no (some ep)
+      = .ok (f.setKids (areplace F.name (encode (F.replaceAt q (P.addKid (.mk D.info [])))) f.kids)) := by
+  obtain ⟨hDw, _⟩ := wf_at (t0 :: ts) X D hX hD
+  have hval := validate_inside (ct := CT) (dt := DT) q F P hF hP
+  have hv : validName D.info.name = true := infoWF_validName (Tree.wf_info hDw)
+  have hwrite := writeSingle_into P D.info hv hbody hnew
+  have hzip := atPath_encode (ct := CT) (dt := DT)
+    (fun g => writeSingleNode g D.info) q F P (P.addKid (.mk D.info [])) hF hP hwrite rfl
+  simp only [appendInto, appendCore, hXnot, hD, hparse, hf, hval, List.isEmpty_cons, Option.isNone_some, bind, Except.bind,
+    pure, Except.pure, Bool.not_false, Bool.and_false, Bool.false_and, Bool.false_eq_true, if_false, hzip]
+
+/-- the emdpath syntax: 'root/a/b' and '/root/a/b' name the node a/b of the tree `root` -/
+example : parseEmdpathWrite "r/a/b" = some ("r", ["a", "b"]) ∧ parseEmdpathWrite "/r/a/b" = some ("r", ["a", "b"]) ∧
+    parseEmdpathWrite "r" = some ("r", []) := by decide
+
+theorem rootGroups_areplace (a : Attrs) (roots : List (String × Obj)) (n : String) (o old : Obj)
+    (hold : alookup n roots = some old) (h : o.gtype = old.gtype) :
+    rootGroups (.group a (areplace n o roots)) = rootGroups (.group a roots) := by
+  simp only [rootGroups, Obj.kids]
+  induction roots with
+  | nil => rfl
+  | cons kv l ih =>
+    obtain ⟨k, w⟩ := kv
+    simp only [areplace]
+    by_cases hk : k = n
+    · subst hk
+      simp only [alookup, if_true, Option.some.injEq] at hold
+      subst hold
+      simp only [if_true, List.filter_cons, h]
+      split <;> simp
+    · simp only [hk, if_false, List.filter_cons]
+      simp only [alookup, hk, if_false] at hold
+      split <;> simp [ih hold]
+
+/-- CLOSURE, the step that makes every theorem above apply again after any append (sequences of appends): when the root
+    group `F.name` of the file is rewritten into the encoding of a tree `T'` of the same name that is still a root, the
+    file holds `encode T'` under that name, has the same set of root groups and the same header -/
+theorem C09_closed (f : Obj) (F T' : Tree) (hg : f.isGroup = true) (hf : alookup F.name f.kids = some (encode F))
+    (hn : T'.name = F.name) (hgt : T'.info.gtype = F.info.gtype) :
+    alookup T'.name (f.setKids (areplace F.name (encode T') f.kids)).kids = some (encode T') ∧
+    rootGroups (f.setKids (areplace F.name (encode T') f.kids)) = rootGroups f ∧
+    (f.setKids (areplace F.name (encode T') f.kids)).attrs = f.attrs := by
+  cases f with
+  | dataset a v => simp [Obj.isGroup] at hg
+  | group a k =>
+    simp only [Obj.kids] at hf
+    refine ⟨?_, ?_, rfl⟩
+    · simp only [Obj.setKids, Obj.kids, hn]
+      exact alookup_areplace_same _ _ _ (by simp [hf])
+    · simp only [Obj.setKids, Obj.kids]
+      apply rootGroups_areplace a k F.name (encode T') (encode F) hf
+      cases T'; cases F
+      simp only [Tree.info_mk] at hgt
+      simp [encode, Obj.gtype, Obj.attrs, nodeAttrs, alookup, hgt]
+
+/-- two whole-root appends in sequence are the union of the three trees, path by path -/
+theorem C09_twice (over : Bool) (f : Obj) (F R1 R2 : Tree) (b1 b2 : List (String × Obj)) (hg : f.isGroup = true)
+    (hF : F.rootedWF CT DT = true) (hR1 : R1.rootedWF CT DT = true) (hR2 : R2.rootedWF CT DT = true)
+    (hn1 : R1.name = F.name) (hn2 : R2.name = F.name)
+    (hf : alookup F.name f.kids = some (encode F)) (hroot : (rootGroups f).contains F.name = true)
+    (hmdname : "metadatabundle" ∉ names F.kids) (hmdname1 : "metadatabundle" ∉ names R1.kids)
+    (hmd1 : mdBody over F.info.body (mdEntries R1.info) = .ok b1)
+    (hc1 : compatKids over { F.info with body := b1 } F.kids (akeys b1 ++ names F.kids ++ names R1.kids) R1.kids = true)
+    (hmd2 : mdBody over b1 (mdEntries R2.info) = .ok b2)
+    (hc2 : ∀ T1 : Tree, T1.info = { F.info with body := b1 } →
+        (∀ n p, cK T1.kids n p = combine over (cK F.kids n p) (cK R1.kids n p)) →
+        compatKids over { T1.info with body := b2 } T1.kids (akeys b2 ++ names T1.kids ++ names R2.kids) R2.kids = true) :
+    ∃ f1 f2 T2, appendInto DT f R1 [] over .yes none = .ok f1 ∧ appendInto DT f1 R2 [] over .yes none = .ok f2 ∧
+      alookup F.name f2.kids = some (encode T2) ∧ T2.rootedWF CT DT = true ∧ rootGroups f2 = rootGroups f ∧ f2.attrs = f.attrs ∧
+      ∀ n p, cK T2.kids n p = combine over (combine over (cK F.kids n p) (cK R1.kids n p)) (cK R2.kids n p) := by
+  obtain ⟨T1, hT1w, hT1i, hap1, hspec1⟩ := C09_union over f F R1 b1 hF hR1 hn1 hf hroot hmdname hmd1 hc1
+  have hT1n : T1.name = F.name := by simp [Tree.name, hT1i]
+  have hT1g : T1.info.gtype = F.info.gtype := by simp [hT1i]
+  obtain ⟨hc_look, hc_roots, hc_attrs⟩ := C09_closed f F T1 hg hf hT1n hT1g
+  -- the second append sees a file that holds `encode T1`
+  have hmdname' : "metadatabundle" ∉ names T1.kids := by
+    intro hm
+    -- a child named metadatabundle in T1 would come from F or R1
+    have hsome : (findKid "metadatabundle" T1.kids).isSome = true := by
+      cases hfk : findKid "metadatabundle" T1.kids with
+      | some c => rfl
+      | none => exact absurd hm ((findKid_none_iff _ _).mp hfk)
+    have := hspec1 "metadatabundle" []
+    simp only [cK, Tree.at] at this
+    rw [(findKid_none_iff _ _).mpr hmdname, (findKid_none_iff _ _).mpr hmdname1] at this
+    cases hfk : findKid "metadatabundle" T1.kids with
+    | some c => simp [hfk, combine] at this
+    | none => simp [hfk] at hsome
+  have hmd2' : mdBody over T1.info.body (mdEntries R2.info) = .ok b2 := by rw [hT1i]; exact hmd2
+  have hg1 : (f.setKids (areplace F.name (encode T1) f.kids)).isGroup = true := by cases f <;> simp_all [Obj.setKids, Obj.isGroup]
+  generalize hf1 : f.setKids (areplace F.name (encode T1) f.kids) = f1 at hap1 hc_look hc_roots hc_attrs hg1
+  obtain ⟨T2, hT2w, hT2i, hap2, hspec2⟩ := C09_union over f1 T1 R2 b2 hT1w hR2 (hn2.trans hT1n.symm)
+    (by rw [hT1n] at hc_look ⊢; exact hc_look) (by rw [hc_roots, hT1n]; exact hroot) hmdname' hmd2' (hc2 T1 hT1i hspec1)
+  have hT2n : T2.name = T1.name := by simp [Tree.name, hT2i]
+  obtain ⟨hd_look, hd_roots, hd_attrs⟩ := C09_closed f1 T1 T2 hg1 (by rw [hT1n] at hc_look ⊢; exact hc_look) hT2n (by simp [hT2i])
+  refine ⟨f1, f1.setKids (areplace T1.name (encode T2) f1.kids), T2, hap1, hap2, ?_, hT2w, ?_, ?_, ?_⟩
+  · rw [hT2n] at hd_look; rw [← hT1n]; exact hd_look
+  · rw [hd_roots, hc_roots]
+  · rw [hd_attrs, hc_attrs]
+  · intro n p; rw [hspec2 n p, hspec1 n p]
+
+-- non-vacuity of the targeted theorems' hypotheses on the example pair above: `a` is in both trees (target of
+-- C09_target_below), `a/new` is in the runtime tree only and `new` is neither a child nor a body object of the file's `a`
+example : (exF.at ["a"]).isSome = true ∧ (exR.at ["a"]).isSome = true ∧ (exR.at (["a"] ++ ["new"])).isSome = true ∧
+    (match exF.at ["a"] with
+     | some P => !(names P.kids).contains "new" && !(akeys P.info.body).contains "new"
+     | none => false) = true := by decide
 
 end EmdProps
